@@ -60,6 +60,9 @@ def find_fn(ast, target, trait, name):
     return hits[0]
 
 
+USED_FILES = set()     # contract files spliced into this run (for the mechanical assumption scan of the evidence)
+
+
 class Harness:
     def __init__(self, name, obligation, function, bounded=None, expect_panic=False, text=None):
         self.name = name              # harness fn name (unique suffix of the full path)
@@ -90,12 +93,14 @@ class KaniJob:
     # -- splicing -------------------------------------------------------------------------
     def include_module(self, relfile, contract_file, modname="verif_kani"):
         path = os.path.join(KDIR, contract_file)
+        USED_FILES.add(path)
         if not os.path.exists(path):
             raise Undecided("missing contract file " + path)
         self.appends.append((relfile, '\n#[cfg(kani)]\npub(crate) mod %s {\n    #![allow(unused)]\n    use super::*;\n    include!("%s");\n}\n' % (modname, path)))
 
     def include_in_macro(self, relfile, macro_name, contract_file, modname="verif_kani", prelude=""):
         path = os.path.join(KDIR, contract_file)
+        USED_FILES.add(path)
         if not os.path.exists(path):
             raise Undecided("missing contract file " + path)
         self.macro_appends.append((relfile, macro_name,
@@ -103,6 +108,8 @@ class KaniJob:
 
     def append(self, relfile, text):
         self.appends.append((relfile, text))
+        for m in re.finditer(r'include!\("([^"]+)"\)', text):
+            USED_FILES.add(m.group(1))
 
     def relax_lint(self, relfile, lint):
         """Harness code may need what a crate-level `forbid` lint rejects (raw reads of a struct's words).  Lints are
